@@ -160,7 +160,12 @@ class Driver:
         k = k % self.npt
         j = j % self.npt
         offs = np.array(offs[: self.n], float)
-        if e > 0:
+        if e < 0:
+            # nudge: the replaced point itself moves by 2^e (the set, hence its conditioning, barely changes,
+            # but the value recorded for it does)
+            xn = m.interpolation.point(k) + offs * 2.0 ** e
+            self.out.label("nudge")
+        elif e > 0:
             if j == k:
                 j = (j + 1) % self.npt
             xn = m.interpolation.point(j) + offs * 2.0 ** (-e)
@@ -465,7 +470,7 @@ class Driver:
         self.out.sample = {"n": self.n, "npt": self.npt, "counts": dict(c), "kappa_max": enc(self.kappa_max)}
 
 
-def make_machine(focus, nmax, neardeg=(0, 0, 0, 20, 30, 40)):
+def make_machine(focus, nmax, neardeg=(0, 0, 0, 0, 20, 30, 40, -24)):
     class ModelsMachine(RuleBasedStateMachine):
         def __init__(self):
             super().__init__()
